@@ -101,7 +101,8 @@ def execute(c, proc_factory, n_calls=None):
             common["max_concurrency"] = c["mc"]
         try:
             with warnings.catch_warnings():
-                warnings.simplefilter("ignore")
+                # (a process that promotes warnings to errors - `python -W error`, pytest's filterwarnings=error - is a legal host)
+                warnings.simplefilter("error" if c.get("warnings_as_errors") else "ignore")
                 if runner_kind == "sync":
                     fn = runner.map if method == "map" else runner.run
                     res = fn(g, dict(vals), event_processors=procs, **common)
